@@ -178,6 +178,14 @@ func validateS2SPresentationMaxValidity(presentation vc.VerifiablePresentation) 
 			Description: fmt.Sprintf("presentation is valid for too long (max %s)", s2sMaxPresentationValidity),
 		}
 	}
+	// The maximum validity only limits the time a presentation can be used if the presentation is refused after its expiration.
+	// That is checked here, and not left to the verification of the presentation: the JWT library regards "exp": 0 as 'no expiration'.
+	if expires.Before(*created) || time.Now().After(expires.Add(s2sMaxClockSkew)) {
+		return oauth.OAuth2Error{
+			Code:        oauth.InvalidRequest,
+			Description: "presentation is expired",
+		}
+	}
 	return nil
 }
 
